@@ -57,6 +57,7 @@ Inductive act :=
 | MapGet (m k : N)                               (* mreg := mget m k *)
 | CheckMap (c : option N -> bool) (fail : N)     (* test on mreg; on failure answer and return (releasing the mutex) *)
 | MapSet (m k v : N)
+| MapSetReg (m k d : N)                           (* write back the value this thread looked up earlier (mreg), or d if it found none *)
 | MapDel (m k : N)
 | Respond (x : N).
 
@@ -158,6 +159,9 @@ Definition step (w : world) (i : nat) : world :=
               else set_threads w (upd (threads w) i (fail_hard t x))
           | MapSet m k v =>
               {| store := store w; mem := mset m k v (mem w); owner := owner w; threads := upd (threads w) i t1; saved := saved w |}
+          | MapSetReg m k d =>
+              {| store := store w; mem := mset m k (match mreg t with Some v => v | None => d end) (mem w);
+                 owner := owner w; threads := upd (threads w) i t1; saved := saved w |}
           | MapDel m k =>
               {| store := store w; mem := mdel m k (mem w); owner := owner w; threads := upd (threads w) i t1; saved := saved w |}
           | Respond x =>
@@ -185,6 +189,7 @@ Fixpoint cs_ok (h : option N) (p : list act) : bool :=
   | Unlock l :: r => oN_eqb h l && cs_ok None r
   | MapGet m _ :: r => oN_eqb h (guard m) && cs_ok h r
   | MapSet m _ _ :: r => oN_eqb h (guard m) && cs_ok h r
+  | MapSetReg m _ _ :: r => oN_eqb h (guard m) && cs_ok h r
   | MapDel m _ :: r => oN_eqb h (guard m) && cs_ok h r
   | _ :: r => cs_ok h r
   end.
@@ -196,6 +201,7 @@ Definition at_map (t : thread) : option (N * bool) :=
   match prog t with
   | MapGet m _ :: _ => Some (m, false)
   | MapSet m _ _ :: _ => Some (m, true)
+  | MapSetReg m _ _ :: _ => Some (m, true)
   | MapDel m _ :: _ => Some (m, true)
   | _ => None
   end.
@@ -242,7 +248,9 @@ Inductive hid :=
 | HUnsealSplit                       (* NOT the code: the key list is appended after the mutex was released *)
 | HReadKeys                          (* a handler that serves the published keys: sealed test under the mutex, then reads the key list *)
 | HOauthBegin (k st : N)             (* auth_oauth2.go oauth2DoRedirectoToProviderHandler: park the pending login k with state parameter st *)
-| HOauthCallback (k st : N).         (* auth_oauth2.go oauth2RedirectPathHandler: look the pending login up, compare the state, (provider round trip), forget it *)
+| HOauthCallback (k st : N)          (* auth_oauth2.go oauth2RedirectPathHandler: look the pending login up, compare the state, (provider round trip), forget it *)
+| HView (u : N)                      (* app.go profileHandler: a pure reader of the profile *)
+| HLogin (u : N).                    (* app.go loginHandler after the password check: userHasU2FTokens, then the profile again; nothing written for a user with tokens *)
 
 Definition has_enabled_tok (o : option profile) : bool :=
   match o with Some p => existsb t_enabled (toks p) | None => false end.
@@ -298,7 +306,14 @@ Definition handler (h : hid) : list act :=
       [Lock L_state; MapGet M_pendingOauth2 k; Unlock L_state;
        CheckMap is_some 400; CheckMap (fun m => oN_eq m (Some st)) 400;
        Lock L_state; MapDel M_pendingOauth2 k; Unlock L_state; Respond 200]
+  | HView u => [Load u; Respond 200]
+  | HLogin u => [Load u; Load u; Respond 200]
   end.
+
+(* a request that only reads the profile store and answers: nothing of it outlives it *)
+Definition is_local (a : act) : bool :=
+  match a with Load _ | Check _ _ | Soft _ _ | Respond _ => true | _ => false end.
+Definition reader (p : list act) : bool := forallb is_local p.
 
 (* app.go performStateCleanup: one pass of the periodic sweep over the in-memory maps (not a request:
    no answer), the expired keys `ks` of each map deleted inside ONE critical section *)
@@ -313,11 +328,21 @@ Definition oauth_callback_copied (k st : N) : list act :=
   [Lock L_copy; MapGet M_pendingOauth2 k; CheckMap is_some 400; CheckMap (fun m => oN_eq m (Some st)) 400;
    MapDel M_pendingOauth2 k; Unlock L_copy; Respond 200].
 
+(* NOT the code: u2fSignRequest handing the user's pending challenge out again.  The pending entry is looked
+   up in one critical section (a helper that locks, reads localAuthData[user], unlocks) and the entry —
+   the one found, or a new challenge `chal` if none was found — is stored in a SECOND critical section. *)
+Definition u2f_signreq_reissue (u chal : N) : list act :=
+  [Load u; Check has_enabled_tok 400; Lock L_state; MapGet M_localAuth u; Unlock L_state;
+   Lock L_state; MapSetReg M_localAuth u chal; Unlock L_state; Respond 200].
+
 (* ------------------------------------------------------------------ the answer ends the request *)
 (* A request has been answered when no Respond is left in its program (it was executed, or an early
    return fixed the answer and cut the rest off). *)
 Fixpoint has_respond (p : list act) : bool :=
   match p with [] => false | Respond _ :: _ => true | _ :: r => has_respond r end.
+(* request i of the pool has been answered *)
+Definition answered (w : world) (i : nat) : bool :=
+  match nth_error (threads w) i with Some t => negb (has_respond (prog t)) | None => false end.
 Definition is_store_write (a : act) : bool := match a with Save _ _ | Del _ => true | _ => false end.
 (* every storage write of the program still has the Respond ahead of it *)
 Fixpoint wa_ok (p : list act) : bool :=
